@@ -438,7 +438,11 @@ class ChangeNode:
         from frappy.errors import RangeError, WrongTypeError
         pobj = self.module.parameters['p']
         pobj.readerror = None
-        self.module.announceUpdate('p', value)
+        try:
+            self.module.announceUpdate('p', value)
+        except Exception as e:      # announceUpdate itself must not raise for any value (the poller would die)
+            del self.conn.msgs[:]
+            return ('other', type(e).__name__), None
         del self.conn.msgs[:]
         err = pobj.readerror
         if err is None:
